@@ -21,11 +21,14 @@ from corr import C08_world as W
 
 PROPERTY = "C08"
 RULE = ("operations in the simplified form (tree of response-keyed fields, each resolver sync / deferred / "
-        "deferred-returning-a-deferred, outcome value | null | list | object | ResolverError | unexpected exception | "
+        "deferred-returning-a-deferred / future already finished (or failed) when the executor receives it, top level written "
+        "plainly, inside an inline fragment or as one fragment spread, outcome value | null | list | object | ResolverError | unexpected exception | "
         "unserialisable value, nullable / non-null / list typing): bounded-exhaustive over 1-2 top-level fields x 3 modes x "
         "9 outcome shapes, then seeded random trees; every operation runs under all four configurations and, for the two "
         "deferred runtimes, under ALL completion orders when it has <= 4 (quick) / <= 6 (thorough) tasks, else FIFO + LIFO + "
-        "random orders. distinct non-trivial = distinct (operation, schedule) with >= 1 deferred task")
+        "random orders; plus REAL ThreadPoolExecutor pools with 1 and 2 workers, resolvers still in flight when callbacks are attached, "
+        "nested futures submitted from pool tasks, hard 4 s timeout = failing case. "
+        "distinct non-trivial = distinct (operation, schedule) with >= 1 deferred task")
 ASSUMPTIONS = [
     "completions are atomic: a task's completion and all callbacks/continuations it triggers run before the next completion "
     "(manual executor; asyncio loop drained to quiescence between completions)",
@@ -36,8 +39,10 @@ ASSUMPTIONS = [
 TRUSTED = [
     "concurrent.futures.Future semantics (callbacks run synchronously at completion, exceptions in callbacks swallowed, "
     "set_result on a finished future raises InvalidStateError) and asyncio.gather/await ordering are modelled, not verified",
+    "asyncio + an already finished awaitable: it is only looked at when the loop next runs, so call order and task numbering "
+    "differ from the callback model; those cases are compared by the direct oracle only (data, errors, completion), not with the model trace",
     "NOT exhibited by the model or the controlled scheduler: true parallel interleaving of callback *bodies* on different "
-    "worker threads (the non-atomic `done += 1` read-modify-write in gather_futures). Only a short real-thread smoke run touches it.",
+    "worker threads (the non-atomic `done += 1` read-modify-write in gather_futures). The real 1-/2-worker pool stage exercises real threads (decisive for deadlocks, smoke for races).",
 ]
 
 CONFIGS = ("blocking", "generic-blocking", "asyncio", "threadpool")
@@ -177,6 +182,11 @@ class Checker:
                 ctx.nontrivial((dumps(W.to_model(case), sort_keys=True), tuple(obs["choices"])))
         if not ctx.model_ok:
             return
+        if config == "asyncio" and "ready" in W.features(case):
+            # an already finished awaitable is only looked at when the loop next runs: the call order (and with it the
+            # queue the schedule indexes) legitimately differs from the callback model; the direct oracle still applies
+            ctx.stat("model-comparison-skipped(asyncio+ready)")
+            return
         if sched is None:
             req = {"op": "blocking", "case": W.to_model(case)}
         else:
@@ -247,6 +257,15 @@ class Checker:
             return any(f[0] == what and f[1] == config for f in self.failures_of(c, cap=24))
         small = W.shrink(case, still, budget=20 if what == "never-completes" else 120)
         sf = [f for f in self.failures_of(small, cap=100) if f[0] == what and f[1] == config] or fails
+        if what == "never-completes" or "Watchdog" in str(sf[0][3]):
+            # the watchdog is wall-clock: under machine load it can fire on a healthy run. Report only what a
+            # run with a long timeout confirms.
+            if not W.confirm_hang(small, config, sf[0][2]):
+                if small is case or not W.confirm_hang(case, config, fails[0][2]):
+                    ctx.notes.append("watchdog fired but the confirmation run completed (machine load): not a failure")
+                    ctx.stat("watchdog-unconfirmed")
+                    return True
+                small, sf = case, fails
         sig = "%s:%s:%s:%s" % (self.prop.lower(), what, config, "+".join(sorted(W.features(small))))
         ctx.fail(sig, "%s (%s)" % (sf[0][3], config),
                  {"case": small, "config": config, "schedule": sf[0][2], "what": what, "document": W.document(small)})
@@ -354,42 +373,126 @@ def run_streams(ctx, chk, budget_frac=0.8, kinds=None):
     chk.flush()
 
 
-def real_thread_smoke(ctx, n=12):
-    """Smoke only: real ThreadPoolExecutor workers, all-deferred resolvers, hard timeout."""
+def _chain_case(kind, depth, mode="deferred"):
+    """{ a { b { c } } } of the given depth, every resolver pool-submitted."""
+    names = "abcdef"
+    ty = {"t": "int"}
+    rv = depth
+    for d in range(depth - 1, 0, -1):
+        ty = {"t": "obj", "fields": [{"key": names[d], "mode": mode, "ty": ty}]}
+        rv = {names[d]: {"r": "ok", "v": rv}}
+    return {"kind": kind, "fields": [{"key": names[0], "mode": mode, "ty": ty, "out": {"r": "ok", "v": rv}}]}
+
+
+def real_pool_cases(rng, n_random):
+    I = {"t": "int"}
+    cases = [_chain_case("query", 2), _chain_case("query", 3), _chain_case("query", 3, "nested"), _chain_case("mutation", 2)]
+    cases.append({"kind": "mutation", "fields": [{"key": k, "mode": "deferred", "ty": I, "out": {"r": "ok", "v": i}}
+                                                 for i, k in enumerate(("one", "two", "three"))]})
+    for pos in range(3):      # a nested future whose INNER future fails, at each position
+        fs = [{"key": k, "mode": "nested", "ty": I, "out": ({"r": "rerr"} if i == pos else {"r": "ok", "v": i})}
+              for i, k in enumerate(("one", "two", "three"))]
+        cases.append({"kind": "mutation", "fields": fs})
+    for style in ("inline", "spread"):
+        c = dict(cases[4], style=style)
+        cases.append(c)
+    for _ in range(n_random):
+        cases.append(W.gen_case(rng, depth=2, p_sync=0.2, p_ready=0.0, p_nested=0.3, max_sub=2))
+    return cases
+
+
+def real_pool_stage(ctx, prop, extra_oracle=None, n_random=4, kinds=None):
+    """
+    REAL ThreadPoolExecutor workers (max_workers = 1 and 2), resolvers still in flight when the executor
+    attaches its callbacks (short sleeps), nested futures submitted from inside pool tasks. A run that does
+    not complete within the hard timeout is a failing case (a worker blocked inside a callback).
+    Interleavings are whatever the OS picks: smoke for races, but decisive for deadlocks.
+    """
+    import concurrent.futures
+    import threading
+    import time
     from py_gql import process_graphql_query
     from py_gql.execution import Executor
     from py_gql.execution.runtime import ThreadPoolRuntime
-    import concurrent.futures
-    rng = ctx.rng
-    rt = ThreadPoolRuntime(max_workers=4)
-    ran = 0
-    try:
-        for i in range(n):
-            case = W.gen_case(rng, kind="query", depth=2, p_sync=0.0, p_nested=0.0)
+    lock = threading.Lock()
 
-            class RealWorld(W.World):
-                def resolve(self, info, explicit):
-                    path = tuple(info.path)
+    class RealWorld(W.World):
+        def ev(self, kind, path):
+            with lock:
+                self.trace.append([kind, list(path)])
+
+        def resolve(self, info, explicit):
+            path = tuple(info.path)
+            f, fo = self.table[path]
+            self.ev("call", path)
+            if not explicit:
+                return self.body(path)
+            time.sleep(0.004)
+            if f["mode"] == "nested":
+                def inner():
+                    time.sleep(0.004)
                     return self.body(path)
-            ref = W.run_blocking(case)
+                return info.runtime.submit(inner)
+            return self.body(path)
+
+    ran = 0
+    for case in real_pool_cases(ctx.rng, n_random):
+        if kinds and case["kind"] not in kinds:
+            continue
+        ref = W.run_blocking(case)
+        for workers in (1, 2):
+            if ctx.out_of_time():
+                return
+            rt = ThreadPoolRuntime(max_workers=workers)
             w = RealWorld(case)
+            cfg = "threadpool-real-w%d" % workers
+            detail = {"case": case, "config": cfg, "schedule": None, "document": W.document(case)}
+            feats = "+".join(sorted(W.features(case)))
             try:
-                fut = process_graphql_query(W.build_schema(case), W.document(case), context=w, runtime=rt, executor_cls=Executor)
-                res = fut.result(timeout=10)
-            except concurrent.futures.TimeoutError:
-                ctx.fail("c08:never-completes:threadpool-real-threads", "real thread pool run did not complete in 10 s",
-                         {"case": case, "config": "threadpool-real", "schedule": None})
-                break
-            except Exception as err:  # noqa
-                ctx.notes.append("real-thread smoke: unexpected %s" % type(err).__name__)
-                continue
-            ran += 1
-            if ref["status"] == "ok" and (dumps(res.data) != dumps(ref["data"]) or W.canon_errors(res.errors) != ref["errors"]):
-                ctx.fail("c08:data-differs:threadpool-real-threads", "real thread pool result differs from BlockingExecutor",
-                         {"case": case, "config": "threadpool-real", "schedule": None})
-    finally:
-        rt._inner.shutdown(wait=False)
-    ctx.extra["real_thread_smoke_runs"] = ran
+                schema, doc = W.prepared(case)
+                try:
+                    fut = process_graphql_query(schema, doc, context=w, runtime=rt, executor_cls=Executor, validators=[])
+                    res = fut.result(timeout=4)
+                    obs = W.obs_of_result(w, result=res, status="ok")
+                except concurrent.futures.TimeoutError:
+                    # wall-clock timeout: confirm with a fresh pool and a long timeout before reporting (machine load)
+                    try:
+                        rt._inner.shutdown(wait=False, cancel_futures=True)
+                    except TypeError:
+                        rt._inner.shutdown(wait=False)
+                    rt = ThreadPoolRuntime(max_workers=workers)
+                    w = RealWorld(case)
+                    try:
+                        fut = process_graphql_query(schema, doc, context=w, runtime=rt, executor_cls=Executor, validators=[])
+                        fut.result(timeout=25)
+                        ctx.stat("watchdog-unconfirmed")
+                        ctx.notes.append("real pool: 4 s timeout not confirmed by the 25 s run (machine load)")
+                        continue
+                    except concurrent.futures.TimeoutError:
+                        pass
+                    except Exception:  # noqa
+                        ctx.stat("watchdog-unconfirmed")
+                        continue
+                    ctx.fail("%s:never-completes:%s:%s" % (prop.lower(), cfg, feats),
+                             "real pool with %d worker(s): no result within 4 s (a worker is blocked / the result future is never set)" % workers,
+                             detail)
+                    continue
+                except Exception as err:  # noqa
+                    obs = W.obs_of_result(w, exc=err, status="failed")
+                ran += 1
+                ctx.count()
+                ctx.stat("config=" + cfg)
+                bad = compare_to_reference(case, ref, obs, cfg)
+                if not bad and extra_oracle is not None:
+                    bad = extra_oracle(case, cfg, None, obs)
+                if bad:
+                    ctx.fail("%s:%s:%s:%s" % (prop.lower(), bad[0], cfg, feats), "%s (%s)" % (bad[1], cfg), detail)
+            finally:
+                try:
+                    rt._inner.shutdown(wait=False, cancel_futures=True)
+                except TypeError:
+                    rt._inner.shutdown(wait=False)
+    ctx.extra["real_pool_runs"] = ran
 
 
 def run(ctx):
@@ -397,7 +500,7 @@ def run(ctx):
     chk = Checker(ctx, "C08")
     try:
         run_streams(ctx, chk)
-        real_thread_smoke(ctx, 12 if ctx.tier == "quick" else 60)
+        real_pool_stage(ctx, "C08", n_random=6 if ctx.tier == "quick" else 40)
     finally:
         W.close_private_loop()
     ctx.extra["configurations"] = list(CONFIGS)
